@@ -14,7 +14,7 @@
 (***************************************************************************)
 EXTENDS Integers, Sequences, FiniteSets, TLC, Json, IOUtils
 
-CONSTANTS Chains, Lite
+CONSTANTS Chains, Lite, Delay
 
 Trace == ndJsonDeserialize(IOEnv.TRACE_FILE)
 
@@ -62,7 +62,8 @@ B_receipts(k, c)   == { Tr(x) : x \in SetOf(St(k, c).receipts) }
 B_acks(k, c)       == { [t |-> Tr(x), code |-> x[4]] : x \in SetOf(St(k, c).acks) }
 B_status(k, c)     == LET S == SetOf(St(k, c).status) IN [t \in {Tr(x) : x \in S} |-> (CHOOSE x \in S : Tr(x) = t)[4]]
 B_fn(r, c)         == [d \in Chains \ {c} |-> r[d]]
-B_clients(k, c)    == [d \in Chains \ {c} |-> [latest |-> St(k, c).clients[d].latest, cons |-> SetOf(St(k, c).clients[d].cons)]]
+B_proc(r)          == LET S == SetOf(r) IN [x \in {e[1] : e \in S} |-> (CHOOSE e \in S : e[1] = x)[2]]
+B_clients(k, c)    == [d \in Chains \ {c} |-> [latest |-> St(k, c).clients[d].latest, cons |-> SetOf(St(k, c).clients[d].cons), proc |-> IF Delay = 0 THEN (0 :> 0) ELSE B_proc(St(k, c).clients[d].proc)]]
 
 Bind(k) ==
   LET S == SentAt(k) IN
